@@ -3,6 +3,7 @@
 //! its own about the library's behaviour: it observes and logs; the TLA+ trace specification decides.
 #![allow(clippy::type_complexity)]
 use crate::elem::{self, Elem};
+use crate::fence::{self, HarnessScope, TrackedScope};
 use crate::reg::{self, Cb};
 use any_vec::any_value::{AnyValue, AnyValueMut, AnyValueRaw, AnyValueTypeless, AnyValueTypelessMut, AnyValueWrapper};
 use any_vec::element::Element;
@@ -30,7 +31,11 @@ pub trait Config: 'static {
     /// [fixed, fcap (elements; BIG = unbounded), backend name]
     fn backend() -> (bool, i64, &'static str);
     const CLONEABLE: bool = false;
+    const RESIZABLE: bool = false;
     fn clone_vec(_v: &AnyVec<Self::Tr, Self::M>) -> Option<AnyVec<Self::Tr, Self::M>> { None }
+    /// reserve / reserve_exact / shrink_to_fit / shrink_to, erased or through the typed view; false = not offered by this backend
+    fn cap_op(_v: &mut AnyVec<Self::Tr, Self::M>, _op: &str, _n: usize, _typed: bool) -> bool { false }
+    fn with_capacity(_n: usize) -> Option<AnyVec<Self::Tr, Self::M>> { None }
 }
 
 pub type V<C> = AnyVec<<C as Config>::Tr, <C as Config>::M>;
@@ -63,6 +68,7 @@ pub struct Repl<E: Elem> {
 }
 impl<E: Elem> Repl<E> {
     fn new(items: Vec<E>, raw: bool, delta: i64) -> Self {
+        let _h = HarnessScope::new();
         let n = items.len();
         Repl { items: items.into_iter().map(ManuallyDrop::new).collect(), taken: vec![false; n], pos: 0, raw, delta }
     }
@@ -76,6 +82,7 @@ impl<E: Elem> Drop for Repl<E> {
                 self.taken[k] = true;
                 let v = unsafe { ManuallyDrop::take(&mut self.items[k]) };
                 if self.raw {
+                    let _h = HarnessScope::new();
                     RETURNED.with(|r| r.borrow_mut().push(Box::new(v)));
                 } else {
                     drop(v);
@@ -181,7 +188,7 @@ pub struct ActOut {
     pub note: Vec<String>,
 }
 impl ActOut {
-    fn new() -> Self { ActOut { res: "ok", ret: vec![], hint: (-1, -1, -1), born: vec![], note: vec![] } }
+    fn new() -> Self { ActOut { res: "ok", ret: Vec::with_capacity(8), hint: (-1, -1, -1), born: Vec::with_capacity(8), note: Vec::with_capacity(4) } }
 }
 
 fn vidx(name: &str) -> usize {
@@ -222,10 +229,11 @@ impl<C: Config> World<C> {
     pub fn new(nvecs: usize) -> Self {
         let mut vs = Vec::new();
         for _ in 0..nvecs {
-            let b: Box<V<C>> = Box::new(AnyVec::new_in::<C::E>(C::mem_builder()));
-            vs.push(VSlot { ptr: Box::into_raw(b), h: None, kept: Vec::new(), last_base: 0, probed: 0 });
+            let nv: V<C> = { let _t = TrackedScope::new(); AnyVec::new_in::<C::E>(C::mem_builder()) };
+            let b: Box<V<C>> = Box::new(nv);
+            vs.push(VSlot { ptr: Box::into_raw(b), h: None, kept: Vec::with_capacity(16), last_base: 0, probed: 0 });
         }
-        let mut w = World { vs, ext: Vec::new(), notes: Vec::new() };
+        let mut w = World { vs, ext: Vec::with_capacity(64), notes: Vec::new() };
         for i in 0..w.vs.len() { w.vs[i].last_base = w.base(i); }
         w
     }
@@ -262,6 +270,7 @@ impl<C: Config> World<C> {
             let kept: Vec<Value> = self.vs[i].kept.iter().map(|e| { let d = Self::dec(e.as_bytes()); json!([d.0, d.1]) }).collect();
             let excl = self.busy(i) && hk != "iter";
             let (len, cap, el, al, mv, vw);
+            let mut blk = (0i64, 0i64, 0i64);
             if alive && !excl {
                 let v: &V<C> = unsafe { &*self.vs[i].ptr };
                 len = clampi(v.len());
@@ -280,16 +289,20 @@ impl<C: Config> World<C> {
                 al = base % C::E::AL == 0 && (bytes.as_ptr() as usize == base || v.len() == 0 || C::E::SZ == 0);
                 mv = base != self.vs[i].last_base;
                 self.vs[i].last_base = base;
+                let (l, b, a) = fence::lookup(base);
+                blk = (l as i64, clampi(b), a as i64);
             } else {
                 len = -1; cap = -1; el = vec![]; al = true; mv = false; vw = true;
             }
             o.insert(VNAMES[i].to_string(), json!({
-                "hk": hk, "len": len, "cap": cap, "el": el, "al": al, "mv": mv, "vw": vw,
+                "hk": hk, "len": len, "cap": cap, "el": el, "al": al, "mv": mv, "vw": vw, "blk": [blk.0, blk.1, blk.2],
                 "held": held, "kept": kept, "hint": [hint.0, hint.1, hint.2]
             }));
         }
         let ext: Vec<Value> = self.ext.iter().map(|e| { let d = e.decode_self(); json!([d.0, d.1]) }).collect();
         o.insert("ext".to_string(), json!(ext));
+        o.insert("nblk".to_string(), json!(fence::live_blocks()));
+        o.insert("canary".to_string(), json!(fence::canaries_ok() && !fence::table_full()));
         Value::Object(o)
     }
 
@@ -434,7 +447,7 @@ impl<C: Config> World<C> {
                 let b = bounds(a);
                 if st(a, "path") == "typed" {
                     let mut t = self.v(x).downcast_mut::<C::E>().expect("driver: type");
-                    let it: Box<dyn DynIt<C::E>> = with_range!(b, r => Box::new(t.drain(r)));
+                    let it: Box<dyn DynIt<C::E>> = with_range!(b, r => { let d = t.drain(r); let _h = HarnessScope::new(); Box::new(d) });
                     self.vs[x].h = Some(Handle::Typed(it));
                 } else {
                     let v = self.v(x);
@@ -446,12 +459,12 @@ impl<C: Config> World<C> {
                 let b = bounds(a);
                 let n = usz(a, "n");
                 let delta = a.get("delta").and_then(|d| d.as_i64()).unwrap_or(0);
-                let items: Vec<C::E> = (0..n).map(|_| self.mk(out)).collect();
+                let items: Vec<C::E> = { let _h = HarnessScope::new(); (0..n).map(|_| self.mk(out)).collect() };
                 match st(a, "src") {
                     "typed" => {
                         let mut t = self.v(x).downcast_mut::<C::E>().expect("driver: type");
                         let rp = ReplT(Repl::new(items, false, delta));
-                        let it: Box<dyn DynIt<C::E>> = with_range!(b, r => Box::new(t.splice(r, rp)));
+                        let it: Box<dyn DynIt<C::E>> = with_range!(b, r => { let d = t.splice(r, rp); let _h = HarnessScope::new(); Box::new(d) });
                         self.vs[x].h = Some(Handle::Typed(it));
                     }
                     "wrapper" => {
@@ -471,7 +484,7 @@ impl<C: Config> World<C> {
             }
             "next" => {
                 let front = st(a, "end") == "front";
-                let sink = a["sink"].clone();
+                let sink = { let _h = HarnessScope::new(); a["sink"].clone() };
                 let mut h = self.vs[x].h.take().expect("driver: no handle");
                 enum It<C: Config> { E(Option<El<C>>), T(Option<C::E>) }
                 let item: It<C> = match &mut h {
@@ -519,6 +532,7 @@ impl<C: Config> World<C> {
                     k => panic!("driver: bad iter kind {}", k),
                 };
                 out.hint = Self::it_hint(&it);
+                let _h = HarnessScope::new();
                 self.vs[x].h = Some(Handle::Iters(vec![it]));
             }
             "iter_next" => {
@@ -543,9 +557,24 @@ impl<C: Config> World<C> {
                     _ => panic!("driver: clone of exclusive iterator"),
                 };
                 out.hint = Self::it_hint(&c);
+                let _h = HarnessScope::new();
                 its.push(c);
             }
             "iter_end" => { self.vs[x].h = None; }
+            "reserve" | "reserve_exact" | "shrink_to_fit" | "shrink_to" => {
+                let n = bound_val(a["n"].as_i64().unwrap_or(0));
+                if !C::cap_op(self.v(x), op, n, st(a, "path") == "typed") { panic!("driver: capacity operations not offered by this backend"); }
+            }
+            "recreate" => {
+                // drop the vector and build a new one with_capacity(n)
+                let n = bound_val(a["n"].as_i64().unwrap_or(0));
+                let old = unsafe { Box::from_raw(self.vs[x].ptr) };
+                self.vs[x].ptr = std::ptr::null_mut();
+                drop(old);
+                let nv = C::with_capacity(n).expect("driver: with_capacity not offered by this backend");
+                let b = { let _h = HarnessScope::new(); Box::new(nv) };
+                self.vs[x].ptr = Box::into_raw(b);
+            }
             o => panic!("driver: unknown op {}", o),
         }
     }
@@ -568,7 +597,7 @@ impl<C: Config> World<C> {
     /// offer a heap-boxed value through a raw pointer; ownership passes on success, the value comes back to
     /// the driver (ext) when the call is rejected by a panic
     fn with_raw(&mut self, val: C::E, f: impl FnOnce(&mut Self, AnyValueRaw)) {
-        let b: Box<ManuallyDrop<C::E>> = Box::new(ManuallyDrop::new(val));
+        let b: Box<ManuallyDrop<C::E>> = { let _h = HarnessScope::new(); Box::new(ManuallyDrop::new(val)) };
         let p = &**b as *const C::E as *mut u8;
         let raw = unsafe { AnyValueRaw::new(NonNull::new_unchecked(p), C::E::SZ, TypeId::of::<C::E>()) };
         let r = catch_unwind(AssertUnwindSafe(|| f(self, raw)));
@@ -582,7 +611,7 @@ impl<C: Config> World<C> {
     pub fn step(&mut self, a: &Value) -> (ActOut, Vec<Cb>, bool) {
         reg::clear_cbs();
         let mut out = ActOut::new();
-        let r = catch_unwind(AssertUnwindSafe(|| self.exec_inner(a, &mut out)));
+        let r = { let _t = TrackedScope::new(); catch_unwind(AssertUnwindSafe(|| self.exec_inner(a, &mut out))) };
         if let Err(p) = r {
             let msg = if let Some(s) = p.downcast_ref::<String>() { s.clone() } else if let Some(s) = p.downcast_ref::<&str>() { s.to_string() } else { "?".to_string() };
             if msg.starts_with("driver:") {
@@ -626,23 +655,29 @@ impl<C: Config> World<C> {
     /// drop everything: kept items, handles, extracted values, vectors.  Returns the drop callbacks.
     pub fn teardown(&mut self) -> (Vec<Cb>, bool) {
         reg::clear_cbs();
-        let r = catch_unwind(AssertUnwindSafe(|| {
-            for i in 0..self.vs.len() {
-                let k = std::mem::take(&mut self.vs[i].kept);
-                drop(k);
-                let h = self.vs[i].h.take();
-                drop(h);
+        let t = TrackedScope::new();
+        // every release on its own: a panic in one destructor (e.g. a splice beyond a fixed capacity) must not stop the rest
+        let mut panics = 0;
+        for i in 0..self.vs.len() {
+            let k = std::mem::take(&mut self.vs[i].kept);
+            for item in k { if catch_unwind(AssertUnwindSafe(move || drop(item))).is_err() { panics += 1; } }
+            let h = self.vs[i].h.take();
+            if catch_unwind(AssertUnwindSafe(move || drop(h))).is_err() { panics += 1; }
+        }
+        let e = std::mem::take(&mut self.ext);
+        for v in e { if catch_unwind(AssertUnwindSafe(move || drop(v))).is_err() { panics += 1; } }
+        // raw replacement values handed back by replacement iterators dropped just now
+        let back: Vec<Box<dyn std::any::Any>> = RETURNED.with(|r| std::mem::take(&mut *r.borrow_mut()));
+        for v in back { if catch_unwind(AssertUnwindSafe(move || drop(v))).is_err() { panics += 1; } }
+        for i in 0..self.vs.len() {
+            if !self.vs[i].ptr.is_null() {
+                let b = unsafe { Box::from_raw(self.vs[i].ptr) };
+                self.vs[i].ptr = std::ptr::null_mut();
+                if catch_unwind(AssertUnwindSafe(move || drop(b))).is_err() { panics += 1; }
             }
-            let e = std::mem::take(&mut self.ext);
-            drop(e);
-            for i in 0..self.vs.len() {
-                if !self.vs[i].ptr.is_null() {
-                    let b = unsafe { Box::from_raw(self.vs[i].ptr) };
-                    self.vs[i].ptr = std::ptr::null_mut();
-                    drop(b);
-                }
-            }
-        }));
+        }
+        let r: Result<(), ()> = if panics == 0 { Ok(()) } else { Err(()) };
+        drop(t);
         let (cbs, _) = reg::take_cbs();
         (cbs, r.is_err())
     }
